@@ -576,6 +576,12 @@ func (c *Conv) addBias(out, bias tensor.Tensor) (tensor.Tensor, error) {
 
 	biasShape[1] = bias.Shape()[0]
 
+	// Reshape a copy: the bias belongs to the caller (it usually is a weight of the model).
+	bias, ok := bias.Clone().(tensor.Tensor)
+	if !ok {
+		return nil, ops.ErrTypeAssert("tensor.Tensor", bias)
+	}
+
 	err := bias.Reshape(biasShape...)
 	if err != nil {
 		return nil, err
